@@ -1,0 +1,10 @@
+//go:build verif
+
+package peer
+
+import "time"
+
+// VerifRebaseRequests: see requests.VerifRebase.
+func (p *Peer) VerifRebaseRequests(unit, eps time.Duration) {
+	p.requests.VerifRebase(time.Now(), unit, eps)
+}
